@@ -170,8 +170,13 @@ def explore(fn, oracle=None, max_visits=2, limit=5000, start=0, stop_blocks=(), 
                     na = dict(assumed)
                     dp = t['discr'].get('copy') or t['discr'].get('move')
                     is_bool = dp is not None and not dp['proj'] and fn.local_ty(dp['local']) == 'bool'
+                    nv = fn.discr_nvariants(dp['local']) if dp is not None and not dp['proj'] else None
+                    seen_vals = tuple(v for v, _ in targets) + tuple(excluded)
+                    rest = [v for v in range(nv) if v not in seen_vals] if nv and nv > 0 and all(isinstance(v, int) and 0 <= v < nv for v in seen_vals) else None
                     if is_bool and len(targets) == 1 and targets[0][0] in (0, 1):
                         oval = 1 - targets[0][0]      # the other truth value
+                    elif rest is not None and len(rest) == 1:
+                        oval = rest[0]                # the one remaining variant of the enum
                     else:
                         oval = ('not', tuple(v for v, _ in targets) + tuple(excluded))
                     na[ek] = oval
